@@ -481,11 +481,24 @@ Proof.
   intros H HQ. revert m. induction HQ as [|x l Hx _ IH]; intros [|y m]; cbn; constructor; auto.
 Qed.
 
-Lemma nrn_step_inv (c : Neuron.cls) (p : Neuron.params NM) (s : nstate) (o : Neuron.op NM) :
-  nrn_inv NM c s -> nrn_inv NM c (fst (nrn_step NM c p s o)).
+Lemma map2_Forall_2nd {X Y Z} (f : X -> Y -> Z) (P : Z -> Prop) (Q : Y -> Prop) (l : list X) (m : list Y) :
+  (forall x y, Q y -> P (f x y)) -> Forall Q m -> Forall P (Neuron.map2 f l m).
 Proof.
-  intros I Hc. specialize (I Hc). unfold nrn_step. cbn [fst].
-  destruct o as [a lock xs|keep|m]; cbn [Neuron.step].
+  intros H HQ. revert l. induction HQ as [|y m Hy _ IH]; intros [|x l]; cbn; constructor; auto.
+Qed.
+Lemma map4_Forall_4th {X Y Z W V} (f : X -> Y -> Z -> W -> V) (P : V -> Prop) (Q : W -> Prop)
+      (l : list X) (m : list Y) (n : list Z) (o : list W) :
+  (forall x y z w, Q w -> P (f x y z w)) -> Forall Q o -> Forall P (Neuron.map4 f l m n o).
+Proof.
+  intros H HQ. revert l m n. induction HQ as [|w o Hw _ IH]; intros [|x l] [|y m] [|z n]; cbn; constructor; auto.
+Qed.
+
+(* every operation that exists for the class keeps the invariant *)
+Lemma nrn_step_inv (c : Neuron.cls) (p : Neuron.params NM) (s : nstate) (o : Neuron.op NM) :
+  nrn_op_ok NM c o -> nrn_inv NM c s -> nrn_inv NM c (fst (nrn_step NM c p s o)).
+Proof.
+  intros Hop I Hc. specialize (I Hc). specialize (Hop Hc). unfold nrn_step. cbn [fst].
+  destruct o as [a lock xs|keep|m|a|d|v|r|v r a]; cbn [Neuron.step].
   - unfold Neuron.forward. cbn [snd Neuron.cols].
     rewrite Forall_map. apply (map2_Forall_snd _ _ (fun col => ad col = [])); [|exact I].
     intros col x Hcol. unfold Neuron.col_forward. cbn [snd Neuron.ad].
@@ -494,6 +507,26 @@ Proof.
   - cbn [snd Neuron.cols]. unfold Neuron.clear. rewrite Forall_map. rewrite Hc. cbn [andb Neuron.ad].
     exact I.
   - exact I.
+  - cbn [snd Neuron.cols]. unfold Neuron.set_adapt.
+    apply (map2_Forall_2nd _ _ (fun row => row = [])); [|exact Hop]. intros col row Hrow. exact Hrow.
+  - cbn [snd Neuron.cols]. unfold Neuron.add_adapt.
+    apply (map2_Forall_snd _ _ (fun col => ad col = [])); [|exact I].
+    intros col row Hcol. cbn [Neuron.ad]. rewrite Hcol. reflexivity.
+  - cbn [snd Neuron.cols]. unfold Neuron.set_voltage.
+    apply (map2_Forall_snd _ _ (fun col => ad col = [])); [|exact I]. intros col row Hcol. exact Hcol.
+  - cbn [snd Neuron.cols]. unfold Neuron.set_refrac.
+    apply (map2_Forall_snd _ _ (fun col => ad col = [])); [|exact I]. intros col row Hcol. exact Hcol.
+  - cbn [snd Neuron.cols]. unfold Neuron.load_state.
+    apply (map4_Forall_4th _ _ (fun row => row = [])); [|exact Hop]. intros col vr rr row Hrow. exact Hrow.
+Qed.
+
+Lemma nrn_run_inv (c : Neuron.cls) (p : Neuron.params NM) (ops : list (Neuron.op NM)) : forall s : nstate,
+  Forall (nrn_op_ok NM c) ops -> nrn_inv NM c s -> nrn_inv NM c (fst (run (nrn_step NM c p) s ops)).
+Proof.
+  induction ops as [|o ops IH]; intros s Hops Hs; [exact Hs|].
+  inversion Hops as [|? ? Ho Hops']; subst. cbn [run].
+  pose proof (nrn_step_inv c p s o Ho Hs) as H1. destruct (nrn_step NM c p s o) as [s' out]. cbn [fst] in H1.
+  specialize (IH s' Hops' H1). destruct (run (nrn_step NM c p) s' ops). exact IH.
 Qed.
 
 Theorem nrn_init_inv (c : Neuron.cls) (p : Neuron.params NM) (n b : nat) : nrn_inv NM c (Neuron.init NM c p n b).
@@ -502,32 +535,33 @@ Proof.
   apply repeat_spec in Hin. subst col. reflexivity.
 Qed.
 
-(* checkpoint after ANY operation sequence (forward steps with or without adaptation / refractory lock, clears, mode
-   switches), load into ANY target of the same class, hyperparameters, group size and mode, continue with ANY
-   operations: identical spikes and final state (voltage, refractory time, adaptation) *)
+(* checkpoint after ANY sequence of operations that exist for the class (forward steps with or without adaptation /
+   refractory lock, clears, mode switches, state written from outside through the setters or a load), load into ANY
+   target of the same class, hyperparameters, group size and mode, continue with ANY operations: identical spikes and
+   final state (voltage, refractory time, adaptation) *)
 Theorem neuron_resume (c : Neuron.cls) (p : Neuron.params NM) (s0 : nstate) (pre post : list (Neuron.op NM)) (t : nstate) :
-  nrn_inv NM c s0 ->
+  nrn_inv NM c s0 -> Forall (nrn_op_ok NM c) pre ->
   let s := fst (run (nrn_step NM c p) s0 pre) in
   nrn_compat NM c s t ->
   run (nrn_step NM c p) (nrn_load NM c (nrn_save NM c s) t) post = run (nrn_step NM c p) s post.
 Proof.
-  intros H0 s Hc.
-  exact (resume_equiv (nrn_step NM c p) (nrn_save NM c) (nrn_load NM c) (nrn_compat NM c) (nrn_inv NM c)
-           (neuron_load_save c) (nrn_step_inv c p) s0 pre post t H0 Hc).
+  intros H0 Hpre s Hc. rewrite (neuron_load_save c s t); [reflexivity| |exact Hc].
+  apply nrn_run_inv; assumption.
 Qed.
 
 (* source and target both built by the same constructor call and run on arbitrary operation sequences; the mode
    (train / eval) is not part of a state dictionary, so it must agree, and so must the number of neuron columns
    (a forward with a malformed input can truncate the model's column list) *)
 Theorem neuron_resume_reachable (c : Neuron.cls) (p : Neuron.params NM) (n b : nat) (pre prior post : list (Neuron.op NM)) :
+  Forall (nrn_op_ok NM c) pre -> Forall (nrn_op_ok NM c) prior ->
   let s := fst (run (nrn_step NM c p) (Neuron.init NM c p n b) pre) in
   let t := fst (run (nrn_step NM c p) (Neuron.init NM c p n b) prior) in
   Neuron.training NM t = Neuron.training NM s -> List.length (cols t) = List.length (cols s) ->
   run (nrn_step NM c p) (nrn_load NM c (nrn_save NM c s) t) post = run (nrn_step NM c p) s post.
 Proof.
-  intros s t E1 E2. apply (neuron_resume c p (Neuron.init NM c p n b) pre post t (nrn_init_inv c p n b)).
-  split; [exact E1|]. split; [exact E2|].
-  apply (Checkpoint.run_inv (nrn_step NM c p) (nrn_inv NM c) (nrn_step_inv c p)). apply nrn_init_inv.
+  intros Hpre Hprior s t E1 E2.
+  apply (neuron_resume c p (Neuron.init NM c p n b) pre post t (nrn_init_inv c p n b) Hpre).
+  split; [exact E1|]. split; [exact E2|]. apply nrn_run_inv; [exact Hprior|apply nrn_init_inv].
 Qed.
 End NeuronProofs.
 
